@@ -29,6 +29,7 @@ int main(void)
   } else {
     VF_ASSERT(out_n == 0, "C22: an inbound Heartbeat is not answered");
     if (state == st_test_request_sent) { VF_ASSERT(vf_sess_state(BASE) == st_continuous, "C22: a Heartbeat received while a TestRequest is pending returns the session to normal operation"); VF_REACH(); }
+    else if (state == st_resend_request_sent) { VF_ASSERT(vf_sess_state(BASE) == state || vf_sess_state(BASE) == st_continuous, "C22: during gap recovery an in-sequence Heartbeat leaves the state or completes the recovery"); VF_REACH(); }
     else { VF_ASSERT(vf_sess_state(BASE) == state, "C22: a Heartbeat in any other state leaves the state unchanged"); VF_REACH(); }
   }
   VF_REACH();
